@@ -288,11 +288,15 @@ func c03GetHead(c *Ctx, validate *Fn) {
 		c.Unk("C03.V3-signer-is-expected", "ipnisync.(*Syncer).GetHead", token.NoPos, "exported GetHead not found")
 		return
 	}
+	// (the validation may sit in an unexported helper of the head query: it is looked up through such helpers, and the
+	// helper's own tests reach the success return below as facts implied by its error being nil)
 	var vcall *CallSite
-	for _, cs := range c.Calls(getHead.SSA, Any()) {
-		if cs.In.Common().StaticCallee() == validate.SSA && cs.Fn == getHead.SSA {
-			cs := cs
+	var venv map[ssa.Value]*X
+	for _, st := range c.CallsInl(getHead.SSA, Any(), 2) {
+		if st.In.Common().StaticCallee() == validate.SSA && topFunc(st.Outer().Parent()) == getHead.SSA {
+			cs := st.CallSite
 			vcall = &cs
+			venv = st.Env
 		}
 	}
 	if vcall == nil {
@@ -300,7 +304,7 @@ func c03GetHead(c *Ctx, validate *Fn) {
 		return
 	}
 	signer, verr := c.Result(*vcall, 0), c.Result(*vcall, 1)
-	validated := vcall.X.Args[0]
+	validated := subst(vcall.X.Args[0], venv)
 	// what is validated is what the publisher sent: nothing is stored into the decoded head before it is validated
 	// (replacing its key, signature, CID or topic makes Validate vouch for something other than the response)
 	{
@@ -348,6 +352,33 @@ func c03GetHead(c *Ctx, validate *Fn) {
 			}
 			if _, m := Match(Bin("==", expected, Const(`""`)), f.Cond); m && f.Val {
 				okID = true
+			}
+		}
+		if !okID {
+			// the comparison lives in a helper with one nil return per accepted case: each of them carries one
+			for _, f := range facts {
+				alts := c.ImpliedAlts(f)
+				if len(alts) == 0 {
+					continue
+				}
+				all := true
+				for _, fs := range alts {
+					one := false
+					for _, g := range fs {
+						if _, m := Match(Bin("==", Is(signer), expected), g.Cond); m && g.Val {
+							one = true
+						}
+						if _, m := Match(Bin("==", expected, Const(`""`)), g.Cond); m && g.Val {
+							one = true
+						}
+					}
+					if !one {
+						all = false
+					}
+				}
+				if all {
+					okID = true
+				}
 			}
 		}
 		if !okID {
